@@ -136,6 +136,8 @@ def gen_program(rng, profile):
             t2 += _w(rng, gaps)
             by.append({'at': t2, 'key': f'k{rng.randrange(nk)}'})
         prog['bystander'] = by
+        if rng.random() < 0.4:
+            prog['by_same_opts'] = True      # same options; in the options form: one decorator object, two functions
     if base == 'c10' and rng.random() < 0.3:
         prog['mutate'] = [{'at': calls[rng.randrange(len(calls))]['at'] + rng.choice([0.0, E, bt / 2]),
                            'max_batch_size': rng.randint(1, 5)}]
@@ -199,6 +201,8 @@ class BatcherWorld:
         self.fired = {}
         self.arrivals = []
         self.by_results = []
+        self.by_batches = []
+        self.by_done = []
         self.batcher2 = None
 
     def viol(self, prop, oracle, sig, detail, **features):
@@ -303,6 +307,7 @@ class BatcherWorld:
                 sch.log('batch-end', b)
 
     async def bf2(self, items):
+        self.by_batches.append([self.sch.clock, [k for k, _ in items]])
         for key, arg in list(items):
             await asyncio.sleep(0.125)
             yield key, ('B2', key, arg)
@@ -313,6 +318,7 @@ class BatcherWorld:
         try:
             r = await self.batcher2(('by', j), key=o['key'])
             self.by_results.append((j, o['key'], 'value', r))
+            self.by_done.append([j, self.sch.clock])
         except BaseException as e:  # noqa
             if isinstance(e, GeneratorExit):
                 raise
@@ -425,14 +431,21 @@ class BatcherWorld:
         elif p['form'] == 'func':
             self.call = aa.async_background_batcher(self.bf_entry, **opts)
         else:
-            self.call = aa.async_background_batcher(**opts)(self.bf_entry)
+            deco = aa.async_background_batcher(**opts)
+            self.call = deco(self.bf_entry)
         for m in p.get('mutate', ()):
             loop.call_at(m['at'], self.mutate, m)
         by_tasks = []
         if p.get('bystander'):
             # another batcher object (same class, own batch function) that happens to use the same key strings
-            self.batcher2 = aa.AsyncBackgroundBatcher(self.bf2, max_batch_size=3, batch_timeout=p['batch_timeout'],
-                                                      retention_timeout=p['retention_timeout'])
+            if p.get('by_same_opts'):
+                # same option values; in the options form the *same decorator object* wraps this second function
+                self.batcher2 = {'class': lambda: aa.AsyncBackgroundBatcher(self.bf2, **opts),
+                                 'func': lambda: aa.async_background_batcher(self.bf2, **opts),
+                                 'deco': lambda: deco(self.bf2)}[p['form']]()
+            else:
+                self.batcher2 = aa.AsyncBackgroundBatcher(self.bf2, max_batch_size=3, batch_timeout=p['batch_timeout'],
+                                                          retention_timeout=p['retention_timeout'])
             for j, o in enumerate(p['bystander']):
                 by_tasks.append(loop.create_task(self.by_call(j, o)))
         tasks = []
@@ -810,5 +823,6 @@ def execute(prog, sspec=None, props=('C04',)):
         'outcomes': [(C.i, C.key, C.outcome[0] if C.outcome else None) for C in w.calls],
         'trace': {'batches': [[B.b, [k for k, _ in B.items], B.start, B.end, len(B.events)] for B in w.batches],
                   'calls': [[C.i, C.outcome[0] if C.outcome else None, short(C.outcome[1]) if C.outcome else None, C.t_done]
-                            for C in w.calls], 'end': w.end},
+                            for C in w.calls], 'end': w.end,
+                  'bystander': [w.by_batches, [[j, k, kind, short(r)] for j, k, kind, r in w.by_results], w.by_done]},
     }
